@@ -100,8 +100,9 @@ def _hot_case(case):
     from .. import preempt
     served = case['served']
     sup = [TS4[i] for i in case['sup']]
-    world = SimWorld('c09h/%s' % case['seed'])
+    world = SimWorld('c09h/%s' % case['seed'], with_fs=True)
     viol = []
+    calls = []
 
     def v(rule, detail):
         viol.append({'sig': 'C09 %s concurrent-negotiation' % rule,
@@ -110,8 +111,20 @@ def _hot_case(case):
     pre = None
     try:
         def sentinel(asce, ctx, msg):
-            return None
+            # data sets of the served classes are received into files, so the provider thread
+            # needs the negotiated context the moment the first data fragment arrives
+            from pynetdicom2 import dimsemessages
+            calls.append((id(asce), ctx.id, str(ctx.sop_class), str(ctx.supported_ts)))
+            if hasattr(msg.data_set, 'close'):
+                msg.data_set.close()
+            rsp = dimsemessages.CStoreRSPMessage()
+            rsp.message_id_being_responded_to = msg.message_id
+            rsp.sop_class_uid = msg.sop_class_uid
+            rsp.affected_sop_instance_uid = msg.affected_sop_instance_uid
+            rsp.status = 0
+            asce.send(rsp, ctx.id)
         sentinel.sop_classes = list(served)
+        sentinel.store_in_file = True
         ae = world.make_ae(applicationentity.AE, 'SRV', 11112, sup, 16384)
         ae.add_scp(sentinel)
         world.serve_ae(ae, ADDR)
@@ -121,10 +134,24 @@ def _hot_case(case):
             out = {'ctxs': ctxs}
             outs.append(out)
 
-            def script(peer, out=out):
+            def script(peer, out=out, ctxs=ctxs, k=k):
                 out['reply'] = peer.associate()
                 if isinstance(out['reply'], dict) and out['reply']['kind'] == 'A-ASSOCIATE-AC':
-                    peer.release()
+                    acc_ = [c for c in out['reply']['contexts'] if c[1] == 0]
+                    if acc_:
+                        # use the first accepted context at once: a C-STORE with a data set
+                        pid_ = acc_[0][0]
+                        ab_ = dict((c[0], c[1]) for c in ctxs)[pid_]
+                        peer.send_message(pid_, {0x0002: ab_, 0x0100: 0x0001, 0x0110: 40 + k,
+                                                 0x0700: 0, 0x0800: 1, 0x1000: '1.2.3.%d' % k},
+                                          b'\x10\x00\x10\x00\x04\x00\x00\x00ABCD')
+                        out['probe'] = (pid_, ab_, acc_[0][2])
+                        out['answer'] = peer.read_message(timeout=60.0)
+                    if not peer.eof and not peer.reset:
+                        try:
+                            peer.release()
+                        except OSError:
+                            pass
             pr = peers.ScriptedRequestor(world.sim, world.net, ADDR, ctxs, script=script)
             world.spawn(pr.run, 'peer%d' % k, role='user')
         pre = preempt.Preempter(world.sim, prob=0.3, park_prob=0.2, park_max=0.05,
@@ -157,6 +184,20 @@ def _hot_case(case):
                 elif res == 0 and (ts not in tss or ts not in sup):
                     v('accepted-ts-not-proposed-and-supported',
                       'requestor %d ctx %r answered ts %r' % (k, (pid, ab, tss), ts))
+            if 'probe' in out:
+                m = out.get('answer')
+                pid_, ab_, ts_ = out['probe']
+                if not isinstance(m, dict) or 'fields' not in m:
+                    v('accepted-context-not-served',
+                      'requestor %d: C-STORE on context %d right after the A-ASSOCIATE-AC got %r'
+                      % (k, pid_, m if not isinstance(m, dict) else m.get('kind')))
+                elif m['pcid'] != pid_ or m['fields'].get(0x0100) != 0x8001:
+                    v('probe-answered-on-other-context', 'requestor %d sent on %d, got %r on %d'
+                      % (k, pid_, m['fields'].get(0x0100), m['pcid']))
+                elif not [c for c in calls if c[1:] == (pid_, ab_, ts_)]:
+                    v('served-context-differs-from-answer',
+                      'requestor %d: AC said (%d, %s, %s); service saw %r' % (
+                          k, pid_, ab_, ts_, [c[1:] for c in calls]))
         return _fin(world, viol, case, case['reqs'][0])
     finally:
         if pre is not None:
